@@ -308,6 +308,37 @@ def run(ctx):
                                 ctx.violation("subclass-operand:magnitude:%s" % sym, dict(case_, got=bm(res), want=ref(7.0 * fu, 2.0 * fv)), replay=case_)
                         except Exception as ex:
                             ctx.violation("subclass-operand:raised:%s" % sym, dict(case_, error="%s: %s" % (type(ex).__name__, str(ex)[:160])), replay=case_)
+        # an amount operated with *itself* (one object, one interned quantity on both sides) where the quantity holds one quantity
+        # type in two units (length in m x diameter in cm, by the map form of the request): a/a is one, a*a is the square
+        if ctx.shard == 0:
+            import numpy as np
+            from collections import OrderedDict as _OD
+
+            from barril.units import Array as _Arr3, ObtainQuantity as _OQ3, Quantity as _Q3, Scalar as _Sc3
+
+            for od in (_OD([("length", ["m", 1]), ("diameter", ["cm", 1])]), _OD([("depth", ["km", 2]), ("length", ["ft", -1])]), _OD([("length", ["cm", 1]), ("time", ["s", -1]), ("diameter", ["m", 1])]),
+                       _OD([("length", ["m", 1]), ("time", ["s", -1])])):  # fmt: skip
+                for how in ("ObtainQuantity(dict)", "CreateDerived"):
+                    try:
+                        qm = _OQ3(_OD((k_, list(v_)) for k_, v_ in od.items())) if how == "ObtainQuantity(dict)" else _Q3.CreateDerived(_OD((k_, list(v_)) for k_, v_ in od.items()))
+                    except Exception as e_:
+                        ctx.count("mixed-unit quantities that could not be built")
+                        continue
+                    for cls_name, a_ in (("Scalar", _Sc3(qm, 12.0)), ("Array[list]", _Arr3(qm, [12.0, 3.0])), ("Array[nd]", _Arr3(qm, np.array([12.0, 3.0])))):
+                        A_ = [float(dims.basemag(T, float(x_), dims.items_of(qm))) for x_ in ([a_.GetValue()] if cls_name == "Scalar" else a_.GetValues())]
+                        for sym, fn, ref in (("a/a", lambda p: p / p, lambda t: 1.0), ("a*a", lambda p: p * p, lambda t: t * t), ("a**2", lambda p: p**2 if cls_name == "Scalar" else p * p, lambda t: t * t), ("(a*a)/a", lambda p: (p * p) / p, lambda t: t)):
+                            ctx.ev()
+                            case_ = {"quantity": [[c_, u_, e_] for c_, (u_, e_) in od.items()], "built_by": how, "class": cls_name, "op": sym}
+                            ctx.nt(("self operation", str(list(od)), how, cls_name, sym))
+                            try:
+                                res = fn(a_)
+                                vals_ = [res.GetValue()] if cls_name == "Scalar" else list(res.GetValues())
+                                got = [float(dims.basemag(T, float(x_), dims.items_of(res.GetQuantity()))) for x_ in vals_]
+                                want = [ref(t) for t in A_]
+                                if len(got) != len(want) or not all(abs(g - w) <= 1e-9 * abs(w) for g, w in zip(got, want)):
+                                    ctx.violation("self-operation:magnitude:%s" % sym, dict(case_, got=got, want=want, result=repr(res)[:160]), replay=case_)
+                            except Exception as ex:
+                                ctx.violation("self-operation:raised:%s" % sym, dict(case_, error="%s: %s" % (type(ex).__name__, str(ex)[:160])), replay=case_)
         # Quantity ** n equals n-fold product
         for _ in range(200):
             spec = B.tree(r, 2, 1)
